@@ -6,6 +6,10 @@ ALL = ["C%02d" % i for i in range(1, 21)]
 
 # property -> (level, design_ref, engine, technique, level text, level note)
 CLAIMED = {
+ "C01": ("model_checking", "DESIGN.md §2 C01", "vp",
+   "stateful exhaustive exploration of all interleavings of the real writer and reader code at memory-access granularity (TSan-ABI scheduling points, exact state key, no preemption bound)",
+   "lib/ringbuffer.c is compiled with the ThreadSanitizer ABI and linked against a stub runtime, so every load/store it makes to the shared header and data mapping, every memcpy and every semaphore call is a scheduling point of a deterministic two-coroutine scheduler. For every combination of a writer script and a reader script (writes of several lengths incl. a full-size one, alloc+commit, read, read into a too-small buffer, peek+reclaim), with and without semaphore, at start positions where header and payload straddle the wrap point, on rings whose stale content equals the chunk marker, ALL interleavings are explored (merged on an exact state key) and judged against FIFO/exactly-once/untorn/refusal oracles, a final sequential drain, the semaphore count and the memory order of the marker accesses.",
+   "Sequentially consistent scheduler (weak-memory reorderings of plain accesses are not explored; release/acquire of the marker accesses is asserted from the compiler-passed memory order); script lengths bounded (2x2, 3x1/3x2, 1x3/2x3); 64-bit state fingerprints; a coroutine's local state is taken to be a function of the values it read in the current call."),
  "C07": ("model_checking", "DESIGN.md §2 C07", "vp",
    "explicit enumeration of operation sequences on real rings restored from memory snapshots, from every/wrap-critical start position, against a deque model",
    "Real rings (five requested sizes around the page round-up, with and without semaphore, clean or pre-filled through the API with words equal to the ring's marker constants) are positioned at every word offset / all wrap-critical offsets; every operation sequence up to the stated depth over write, alloc+commit (11 lengths around 0 and S, two payloads), read, read into a too-small buffer, peek and reclaim is run and compared with a deque model; the must-accept rule of the capacity contract is checked on every write and refused operations must leave the complete ring image (header + data mapping) bit-identical.",
